@@ -26,6 +26,7 @@ RULE = (
     "fluid case with >= 2 pressures, a table with >= 3 rows, or any sutton case. The table's maximum pressure is handed over "
     "as float, Python / numpy int (whole numbers) or by keyword, and one table in four has a reservoir temperature with a "
     "fractional part; oil parameters also come as numpy float64 scalars. Distinct = hash of the case record."
+    " One table in sixty runs to 17000..27000 psi (beyond 30 pseudocritical pressures; the stand-alone correlations accept such pressures)."
 )
 ASSUMPTIONS = [
     "tolerance 1e-13 relative for delegation (same arithmetic), 1e-12 for table rows and the cumulative trapezoid",
@@ -68,6 +69,10 @@ def table_case(draw, tier):
     comp = draw(gens.gas_composition())
     hi = 3000.0 if tier == "quick" else 14000.0
     pmax = draw(st.one_of(st.integers(3, int(hi // 10)).map(lambda k: 10.0 * k), st.floats(25.0, hi), st.integers(25, int(hi)).map(float), st.sampled_from([10.5, 15.0, 20.0, 20.000001, 30.0, 1000.0])))
+    if draw(st.integers(0, 59)) == 0:
+        # tables that run past 30 pseudocritical pressures (ultra-deep wells): each row still equals the stand-alone
+        # correlations evaluated at that row's pressure, which accept such pressures
+        pmax = draw(st.floats(17000.0, 27000.0))
     if draw(st.integers(0, 3)) == 0:
         # a reservoir temperature with a fractional part however the composition was drawn (unit conversions give such)
         comp = dict(comp, T=math.floor(comp["T"]) + draw(st.sampled_from([0.5, 0.21375, 0.9, 0.75])))
@@ -266,9 +271,10 @@ def check_case(case) -> Result:
     T = comp["T"]
     pmax = case["pmax"]
     tr = (T + 459.67) / (tpc + 459.67)
-    if not (1.05 <= tr <= 3.0 and pmax / ppc <= 30.0 and ppc > 0):
+    if not (1.05 <= tr <= 3.0 and pmax / ppc <= 45.0 and ppc > 0):
         res.skipped = "Sutton point puts the state outside the Z-factor's range"
         return res
+    res.labels["beyond_30_ppc"] = bool(pmax / ppc > 30.0)
     gv_in = gv
     res.labels["gas_values_container"] = case["container"]
     other = ["Gas Specific Gravity", "Reservoir Temperature (deg F)", "CO2", "N2", "H2S"]  # the same entries, listed in another order
